@@ -67,7 +67,7 @@ def run(tier):
         site = "select_peers_with_config" if v["site"] in ("select_peers", "select_storage_peers") else v["site"]
         rep.violation(v["clause"], site, v["cond"], {"line": v["line"], "segment": sg, "event": ev, "context": ctx, "trace": trace})
     if out["nviol"] > len(out["viol"]):
-        rep.notes.append("%d violations in total, first 100 per shard kept" % out["nviol"])
+        rep.notes.append("%d violations in total, at most 40 per signature and shard kept" % out["nviol"])
     if a_common.mark_bad(recs, out):
         selftest(recs, wd)
     else:
